@@ -285,6 +285,61 @@ fn sig_der(b: &[u8]) -> Option<String> {
     Some(format!("{}", kp.public_key().len()))
 }
 
+/// `Ed25519KeyPair::new` / `from_pkcs8_pki`: the private-key field of a PKCS#8 document as a remote
+/// party (or a key file) supplies it — raw 32 bytes, or wrapped in an OCTET STRING (`04 20` + 32 bytes),
+/// or anything else, which must be an error.
+fn sig_keynew(b: &[u8]) -> Option<String> {
+    use pkcs8::{AlgorithmIdentifierRef, ObjectIdentifier, PrivateKeyInfo};
+    let oid = ObjectIdentifier::new_unwrap("1.3.101.112");
+    let a = ruma_signatures::Ed25519KeyPair::new(oid, b, None, "1".to_owned()).ok().map(|k| k.public_key().len());
+    let pki = PrivateKeyInfo::new(AlgorithmIdentifierRef { oid, parameters: None }, b);
+    let c = ruma_signatures::Ed25519KeyPair::from_pkcs8_pki(pki.clone(), "1".to_owned()).ok().map(|k| k.public_key().len());
+    let d = ruma_signatures::Ed25519KeyPair::from_pkcs8_oak(pki, "1".to_owned()).ok().map(|k| k.public_key().len());
+    a?;
+    Some(format!("{a:?}{c:?}{d:?}"))
+}
+
+/// A push-rule edit as a client sends it (`PUT /pushrules/…?before=…&after=…`), applied to a ruleset
+/// that already holds the user's rules named in `pre`: a rejected edit must leave the ruleset exactly
+/// as it was ("a rejected input has no effect on later calls"). Input: `{"kind", "id", "after",
+/// "before", "pre": [ids], "default": bool}`.
+fn push_edit(b: &[u8]) -> Option<String> {
+    use ruma_common::push::{Action, ConditionalPushRule, NewConditionalPushRule, NewPatternedPushRule, NewPushRule, NewSimplePushRule, RuleKind};
+    let v: serde_json::Value = serde_json::from_slice(b).ok()?;
+    let kind = RuleKind::from(v.get("kind")?.as_str()?);
+    let id = v.get("id")?.as_str()?.to_owned();
+    let after = v.get("after").and_then(|x| x.as_str());
+    let before = v.get("before").and_then(|x| x.as_str());
+    let mk = |kind: &RuleKind, id: &str| -> Option<NewPushRule> {
+        Some(match kind {
+            RuleKind::Override => NewPushRule::Override(NewConditionalPushRule::new(id.to_owned(), vec![], vec![Action::Notify])),
+            RuleKind::Underride => NewPushRule::Underride(NewConditionalPushRule::new(id.to_owned(), vec![], vec![Action::Notify])),
+            RuleKind::Content => NewPushRule::Content(NewPatternedPushRule::new(id.to_owned(), "p".to_owned(), vec![Action::Notify])),
+            RuleKind::Room => NewPushRule::Room(NewSimplePushRule::new(<&ruma_common::RoomId>::try_from(id).ok()?.to_owned(), vec![Action::Notify])),
+            RuleKind::Sender => NewPushRule::Sender(NewSimplePushRule::new(<&ruma_common::UserId>::try_from(id).ok()?.to_owned(), vec![Action::Notify])),
+            _ => return None,
+        })
+    };
+    let _ = std::marker::PhantomData::<ConditionalPushRule>;
+    let mut rs = if v.get("default").and_then(|d| d.as_bool()).unwrap_or(true) {
+        Ruleset::server_default(&ruma_common::owned_user_id!("@me:h"))
+    } else {
+        Ruleset::new()
+    };
+    for p in v.get("pre").and_then(|p| p.as_array()).into_iter().flatten() {
+        if let Some(r) = p.as_str().and_then(|p| mk(&kind, p)) {
+            let _ = rs.insert(r, None, None);
+        }
+    }
+    let snapshot = serde_json::to_string(&rs).ok()?;
+    let res = rs.insert(mk(&kind, &id)?, after, before);
+    let now = serde_json::to_string(&rs).ok()?;
+    if res.is_err() && now != snapshot {
+        return Some(format!("VIOLATION: a rejected rule edit ({:?}) changed the ruleset: {snapshot} -> {now}", res.err()));
+    }
+    Some(format!("{}", res.is_ok()))
+}
+
 fn sig_verify_bytes(b: &[u8]) -> Option<String> {
     // layout: first byte = key length, then key, then 64-byte-ish signature, rest message
     let (&kl, rest) = b.split_first()?;
@@ -370,6 +425,8 @@ pub static ENTRIES: &[Entry] = &[
     e!("sig.sign", sig_sign, json),
     e!("sig.der", sig_der),
     e!("sig.verify_bytes", sig_verify_bytes),
+    e!("sig.keynew", sig_keynew),
+    e!("push.edit", push_edit, json),
     e!("html.strict", html_strict, html),
     e!("html.compat", html_compat, html),
     e!("html.parse", html_parse, html),
